@@ -34,7 +34,9 @@ MANIFEST = {
             'Adjacent-operator pairs are counted; a case only counts as '
             'non-trivial if an alternative grouping of its text evaluates '
             'differently. Built-ins are compared with the math module, random '
-            'by range and completeness of 3000 draws per range. Sampled.',
+            'by range and completeness of 3000 draws per range. Sampled.'
+            ' Integer literals between 2^53 and 2^90 are compared with Py'
+            'thon integers in differences, remainders and comparisons.',
     'note': 'Trusted: Python arithmetic as the meaning of + - * / % ^ and the '
             'comparisons; unary minus binds to the following atom (a signed '
             'operand is always parenthesised where that matters); negative '
